@@ -1242,7 +1242,80 @@ def w_boost(failure, tier):
     return dict(found=False, note='boosts: %d (query kind, placement, boost) comparisons scale every hit score by exactly the boost' % n)
 
 
+def w_collapse(failure, tier):
+    """collapse against the uncollapsed ranking of the same request: one hit per value of the field - the first hit of the
+    ranking carrying it - groups in the order of those hits, documents without a value dropped, inner hits the other hits of
+    the same value in ranking order (or inner sort order), cut by from and size"""
+    docs = []
+    vals = ["a", "b", None, "c", "a", "b", "b", None, "d", "a", "c", "e", "b", "a"]
+    for i, v in enumerate(vals):
+        d = {"_id": "d%02d" % i, "body": "rust " * (1 + (i * 5) % 4) + "engine " * (i % 3), "rating": float((i * 7) % 5)}
+        if v is not None:
+            d["k"] = v
+        docs.append(d)
+    kof = dict((d["_id"], d.get("k")) for d in docs)
+    rating = dict((d["_id"], d["rating"]) for d in docs)
+    add = {"keyword_fields": [{"name": "k", "stored": True, "indexed": True, "fast": True, "nullable": True}],
+           "numeric_fields": [{"name": "rating", "i64": False, "fast": True, "stored": True}]}
+    sorts = [None, [{"field": "rating", "order": "desc"}], [{"field": "rating", "order": "asc"}, {"field": "_score", "order": "desc"}]]
+    inners = [None, {}, {"size": 2}, {"from": 1}, {"from": 1, "size": 1}, {"size": 0}, {"from": 9},
+              {"sort": [{"field": "rating", "order": "asc"}], "size": 3}]
+    reqs, meta = [], []
+    for q in ("rust", {"type": "match_all"}):
+        for srt in sorts:
+            base = dict(REQ_BASE, query=q, limit=50)
+            if srt:
+                base["sort"] = srt
+            reqs.append(base)
+            meta.append(('ref', None))
+            for ih in inners:
+                if ih is not None and not ih.get("sort") and srt:
+                    continue    # inner hits without a sort of their own are ordered by score: only comparable when the request sorts the same way
+                c = {"field": "k"}
+                if ih is not None:
+                    c["inner_hits"] = ih
+                reqs.append(dict(base, collapse=c))
+                meta.append(('col', ih))
+    out, err = drive_search({"schema": None, "schema_add": add, "batches": [docs[:5], docs[5:9], docs[9:]], "requests": reqs})
+    if out is None:
+        return dict(found=False, note='search driver failed: %s' % err)
+    n = 0
+    ref = None
+    for r, m, o in zip(reqs, meta, out):
+        if 'ok' not in o:
+            return dict(found=False, note='collapse request rejected: %s' % str(o)[:200])
+        if m[0] == 'ref':
+            ref = [h['doc_id'] for h in o['ok']['hits']]
+            continue
+        ih = m[1]
+        seen, want = [], []
+        for d in ref:
+            k = kof[d]
+            if k is None or k in seen:
+                continue
+            seen.append(k)
+            others = [x for x in ref if kof[x] == k and x != d]
+            if ih is None:
+                inner = []
+            else:
+                if ih.get("sort"):
+                    others = sorted(others, key=lambda x: (rating[x], x))     # ties: segment, then document order = id order here
+                inner = others[ih.get("from", 0):]
+                if "size" in ih:
+                    inner = inner[:ih["size"]]
+            want.append((d, inner))
+        got = [(h['doc_id'], [x['doc_id'] for x in (h.get('inner_hits') or [])]) for h in o['ok']['hits']]
+        n += 1
+        if got != want or o['ok'].get('total_groups') != len(want):
+            return dict(found=True, cmd='%s search <<< hex(json)' % BIN,
+                        input='14 documents in 3 segments (k values %s); query %s, sort %s, collapse %s' % (vals, _json.dumps(r['query']), _json.dumps(r.get('sort')), _json.dumps(r['collapse'])),
+                        observed='groups %s total_groups %s' % (got, o['ok'].get('total_groups')), expected='groups %s total_groups %d (from the uncollapsed ranking %s)' % (want, len(want), ref))
+    return dict(found=False, note='collapse: %d requests (2 queries x 3 sorts x up to 8 inner_hits settings) agree with the uncollapsed ranking' % n)
+
+
 GENERATORS = {
+    ('U37', 'collapse_group'): w_collapse,
+    ('U37', 'collapse_pick'): w_collapse,
     ('U36', 'dismax_arm'): w_boost,
     ('U36', 'bool_arm'): w_boost,
     ('U36', 'function_score_arm'): w_boost,
